@@ -213,8 +213,31 @@ def cond_nest_extra(ctx: Ctx):
     return {"text": text, "points": pts}
 
 
+def sign_extra(ctx: Ctx):
+    """expressions whose simplification depends on the sign of a quantity (what an assumption on a symbol - positive,
+    non-negative - would let sympy fold at load time): abs, sqrt of a square, comparisons with 0 and with negative
+    constants, powers of powers; of the time, a state and a parameter; evaluated at negative, zero and positive values"""
+    rng = ctx.rng
+
+    def idiom(v):
+        return rng.choice([f"abs({v})", f"sqrt({v}*{v})", f"({v}**2)**0.5", f"Conditional(Ge({v}, 0), 1.5, -2.5)",
+                           f"Conditional(Lt({v}, -1), 3, 0.25)", f"Conditional(Le({v}, -2), {v}, 0.5)", f"Conditional(Gt({v}, 0), {v}, -{v})",
+                           f"abs({v} - 1) - abs({v} + 1)", f"sqrt(abs({v}))", f"Conditional(Eq({v}, 0), 1, 0)", f"{v}*abs({v})",
+                           f"exp(-abs({v}))", f"log(exp({v}))", f"({v}**3)**2", f"Conditional(And(Ge({v}, -3), Lt({v}, 0)), 2, 7)"])
+
+    tv = rng.choice(["t", "time"])
+    text = (f"states(x=0.5, y=-0.25)\nparameters(a=0.75)\nq = {idiom(tv)} + {idiom('a')}\n"
+            f"dx_dt = q - {idiom('x')} + {idiom(tv)}\ndy_dt = {idiom('y')}*{idiom('a')} - {idiom(tv)}\n")
+    pts = []
+    for tval in (-7.25, -2.0, -1.0, -0.5, 0.0, 0.5, 3.0):
+        pts.append({"x": rng.choice([-1.5, -0.5, 0.0, 0.75, 2.0]), "y": rng.choice([-2.0, -1.0, 0.0, 0.5, 1.5]),
+                    "a": rng.choice([-3.0, -1.0, 0.0, 0.5, 2.0]), "t": tval, "dt": 0.01})
+    return {"text": text, "points": pts}
+
+
 def cond_extra(ctx: Ctx):
-    return cond_nest_extra(ctx) if ctx.rng.random() < 0.6 else c03_extra(ctx)
+    k = ctx.rng.random()
+    return cond_nest_extra(ctx) if k < 0.45 else (sign_extra(ctx) if k < 0.7 else c03_extra(ctx))
 
 
 def big_cfg(ctx, k):
